@@ -170,7 +170,7 @@ pub fn check_arbitrary(b: &[u8]) -> Result<bool, Viol> {
 
 pub fn run_shard(ctx: &mut Ctx) {
     let mut r = Rng::new(ctx.shard_seed());
-    let quick_recs = 1500u64;
+    let quick_recs = 5000u64;
     let mut i = 0u64;
     let mut big: Vec<Vec<u8>> = vec![];
     // deterministic part: every kind x option combination x boundary integers (shard 0 only)
